@@ -93,14 +93,26 @@ def isChk : Sexp → Bool
   | .list (.atom "chk" :: _) => true
   | _ => false
 
+def isHook : Sexp → Bool
+  | .list [.atom "hook", _] => true
+  | _ => false
+
+def hook? : Sexp → Option Hook
+  | .list [.atom "hook", .atom "rename"] => some .rename
+  | .list [.atom "hook", .atom "wrap"] => some .wrap
+  | _ => none
+
 def schema? : List Sexp → Schema → Option Schema
   | [], acc => some acc
   | .list (.atom "cls" :: items) :: rest, acc => do
-    let fs ← (items.filter (fun x => !isChk x)).mapM (field? acc)
+    let fs ← (items.filter (fun x => !isChk x && !isHook x)).mapM (field? acc)
+    let hk ← (match items.filter isHook with
+      | [] => some none
+      | h :: _ => (hook? h).map some)
     let ck ← (match items.filter isChk with
       | [] => some none
       | c :: _ => (check? c).map some)
-    schema? rest (acc ++ [{ fields := fs, check := ck }])
+    schema? rest (acc ++ [{ fields := fs, check := ck, hook := hk }])
   | _, _ => none
 
 def outRes : Except Exn Tree → Sexp
@@ -111,7 +123,7 @@ def outRes : Except Exn Tree → Sexp
 def rtReply (S : Schema) (x : Sexp) : Sexp :=
   match tree? S x with
   | some (.obj c ks vs) =>
-    let d := dictify (.obj c ks vs)
+    let d := dictifyTop S (.obj c ks vs)
     .list [.atom (render d), outRes (fromdict S c d)]
   | _ => sym "bad-request"
 
